@@ -41,9 +41,10 @@ def run(cmd, cwd=None, env=None, timeout=None, check=True):
 
 
 # ----------------------------------------------------------------------------- build
-def build(bins, profiles):
+def build(bins, profiles, crate=None):
     """(Re)build the harness bins from /repo's current working tree, hooks enabled."""
-    lock = os.path.join(HARNESS, "Cargo.lock")
+    hdir = os.path.join(ROOT, crate) if crate else HARNESS
+    lock = os.path.join(hdir, "Cargo.lock")
     if not os.path.exists(lock):
         shutil.copy(os.path.join(os.path.dirname(ROOT), "repo", "Cargo.lock"), lock)
     t0 = time.time()
@@ -53,7 +54,7 @@ def build(bins, profiles):
         for b in bins:
             cmd += ["--bin", b]
         try:
-            run(cmd, cwd=HARNESS, timeout=3000)
+            run(cmd, cwd=hdir, timeout=3000)
         except subprocess.TimeoutExpired:
             raise ToolError("cargo build timed out")
 
@@ -63,6 +64,9 @@ def build(bins, profiles):
 
 
 def binpath(profile, b):
+    if "/" in b:            # "<crate dir>/<bin>": a harness crate other than the main one (growth checks)
+        crate, b = b.split("/", 1)
+        return os.path.join(ROOT, crate, "target", profile, b)
     return os.path.join(HARNESS, "target", profile, b)
 
 
